@@ -525,7 +525,7 @@ func c04RandText(r *Rng, kind string) string {
 }
 
 func c04Gen(r *Rng, tier string, emit func(string)) {
-	n := 500
+	n := 1500
 	if tier == "thorough" {
 		n = 10000
 	}
